@@ -314,6 +314,7 @@ theorem overwrite_after' (A Y B : List α) {i : Nat} (hi : A.length = i) :
 section bytes
 variable [Inhabited α]
 
+omit [Inhabited α] in
 theorem Owned.cast {h0 h : Heap α} {s : Slice} {xs ys : List α} (ho : Owned h0 h s xs) (e : xs = ys) :
     Owned h0 h s ys := e ▸ ho
 
@@ -326,17 +327,20 @@ theorem append_old (g : Grow) {h0 h : Heap α} {s t : Slice} {xs : List α} (ho 
   rw [e] at this ⊢
   exact this
 
+omit [Inhabited α] in
 theorem copy_old {h0 h : Heap α} {s t : Slice} {xs : List α} (ho : Owned h0 h s xs) (ht : WF h0 t) :
     Owned h0 (copy h s (read h t)) s (overwrite xs 0 ((read h0 t).take s.len)) := by
   have e := read_mono ho.pre ht
   rw [e]; exact copy_owned ho _
 
+omit [Inhabited α] in
 theorem copy_upto_old {h0 h : Heap α} {s t : Slice} {xs : List α} (ho : Owned h0 h s xs) (ht : WF h0 t)
     {hi : Nat} (hh : hi ≤ s.len) :
     Owned h0 (copy h (s.upto hi) (read h t)) s (overwrite xs 0 ((read h0 t).take hi)) := by
   have e := read_mono ho.pre ht
   rw [e]; exact copy_upto_owned ho hi _ hh
 
+omit [Inhabited α] in
 theorem copy_since_old {h0 h : Heap α} {s t : Slice} {xs : List α} (ho : Owned h0 h s xs) (ht : WF h0 t)
     {p : Nat} (hh : p ≤ s.len) :
     Owned h0 (copy h (s.since p) (read h t)) s (overwrite xs p ((read h0 t).take (s.len - p))) := by
@@ -504,10 +508,12 @@ theorem tabMapFresh_owned (T : φ → φ) {h : Heap φ} {src : Slice} (hs : WF h
     Owned h (tabMapFresh T h src).2 (tabMapFresh T h src).1 ((read h src).map T) :=
   replMem_owned T hs
 
+omit [Inhabited φ] in
 theorem load_eq_read {h : Heap φ} {s : Slice} {i : Nat} (hi : i < s.len) :
     load h s i = (read h s)[i]? := by
   rw [getElem?_read, if_pos hi]; rfl
 
+omit [Inhabited φ] in
 /-- `for i, f := range ff { ff[i] = T(f) }` on an owned table -/
 theorem mapLoop_owned (T : φ → φ) {h0 : Heap φ} {s : Slice} (todo : List φ) :
     ∀ (done : List φ) (h : Heap φ), Owned h0 h s (done ++ todo) →
@@ -585,9 +591,11 @@ theorem frame_append (g : Grow) {h0 h : Heap β} {s : Slice} (hp : h0 <+: h)
       exact ⟨hp, Or.inr hc⟩
   · exact ⟨prefix_snoc hp _, Or.inl hp.length_le⟩
 
+omit [Inhabited β] in
 theorem frame_copy {h0 h : Heap β} (hp : h0 <+: h) {dst : Slice} (ha : h0.length ≤ dst.arr)
     (xs : List β) : h0 <+: copy h dst xs := prefix_write hp ha _ _
 
+omit [Inhabited β] in
 theorem frame_store {h0 h : Heap β} (hp : h0 <+: h) {s : Slice} (ha : h0.length ≤ s.arr) (i : Nat)
     (x : β) : h0 <+: store h s i x := prefix_write hp ha _ _
 
@@ -659,6 +667,7 @@ theorem tabFilter_frame (p : β → Bool) {h0 h : Heap β} (hp : h0 <+: h) (ff :
 theorem tabMapFresh_frame (T : β → β) {h0 h : Heap β} (hp : h0 <+: h) (src : Slice) :
     h0 <+: (tabMapFresh T h src).2 := replMem_frame T hp src
 
+omit [Inhabited β] in
 theorem mapLoop_frame (T : β → β) {h0 : Heap β} {s : Slice} (ha : h0.length ≤ s.arr) (n : Nat) :
     ∀ (i : Nat) (h : Heap β), h0 <+: h → h0 <+: mapLoop T s n i h := by
   induction n with
@@ -774,5 +783,213 @@ theorem readSeq_mono {w w' : World Feature} (hf : Frame w w') {s : MSeq} (hs : W
 
 theorem len_readSeq {w : World Feature} {s : MSeq} (hs : WFSeq w s) : (readSeq w s).len = s.len := by
   simp [Seq.len, readSeq, World.readDat, MSeq.len, length_read hs.2]
+
+/-! ### `asComplete` on a freshly built location -/
+
+theorem mem_overwrite {α : Type} {A : List α} {p : Nat} {ys : List α} {x : α}
+    (hx : x ∈ overwrite A p ys) : x ∈ A ∨ x ∈ ys := by
+  unfold overwrite at hx
+  rcases List.mem_append.1 hx with h | h
+  · rcases List.mem_append.1 h with h | h
+    · exact Or.inl (List.mem_of_mem_take h)
+    · exact Or.inr h
+  · exact Or.inl (List.mem_of_mem_drop h)
+
+theorem closed_store {n : Nat} {h : Heap MLoc} (hc : Closed n h) (s : Slice) (i : Nat) {c : MLoc}
+    (hcr : RefsAbove n c) : Closed n (store h s i c) := by
+  intro a ha x hx
+  unfold store at hx
+  by_cases hab : s.arr = a
+  · subst hab
+    by_cases hl : s.arr < h.length
+    · rw [get_write_eq _ _ _ hl] at hx
+      rcases mem_overwrite hx with h1 | h1
+      · exact hc _ ha x h1
+      · simp at h1; exact h1 ▸ hcr
+    · rw [get_of_le (by rw [length_write]; omega)] at hx
+      cases hx
+  · rw [get_write_ne _ _ _ hab] at hx
+    exact hc a ha x hx
+
+theorem mem_of_load {h : Heap MLoc} {s : Slice} {i : Nat} {u : MLoc} (hl : load h s i = some u) :
+    u ∈ h.get s.arr := List.mem_of_getElem? hl
+
+theorem acLoop_closed {h0 : Heap MLoc} (rec : Heap MLoc → MLoc → MLoc × Heap MLoc)
+    (hrec : ∀ h m, h0 <+: h → Closed h0.length h → RefsAbove h0.length m →
+      h0 <+: (rec h m).2 ∧ Closed h0.length (rec h m).2 ∧ RefsAbove h0.length (rec h m).1)
+    (s : Slice) (hs : h0.length ≤ s.arr) (k : Nat) :
+    ∀ (i : Nat) (h : Heap MLoc), h0 <+: h → Closed h0.length h →
+      h0 <+: acLoop rec s k i h ∧ Closed h0.length (acLoop rec s k i h) := by
+  induction k with
+  | zero => intro i h hp hc; exact ⟨hp, hc⟩
+  | succ k ih =>
+    intro i h hp hc
+    unfold acLoop
+    split
+    · rename_i u hu
+      have hr := hrec h u hp hc (hc _ hs u (mem_of_load hu))
+      exact ih _ _ (prefix_write hr.1 hs _ _) (closed_store hr.2.1 s i hr.2.2)
+    · exact ⟨hp, hc⟩
+
+/-- `asComplete` only writes through slices it can reach: in a heap whose arrays `≥ |h0|` refer
+only to arrays `≥ |h0|`, called on a location that refers only to such arrays, it leaves `h0`
+alone — whatever the nesting and the aliasing inside the new region -/
+theorem asCompleteMem_closed {h0 : Heap MLoc} (fuel : Nat) :
+    ∀ (h : Heap MLoc) (m : MLoc), h0 <+: h → Closed h0.length h → RefsAbove h0.length m →
+      h0 <+: (asCompleteMem fuel h m).2 ∧ Closed h0.length (asCompleteMem fuel h m).2 ∧
+      RefsAbove h0.length (asCompleteMem fuel h m).1 := by
+  induction fuel with
+  | zero => intro h m hp hc hm; exact ⟨hp, hc, hm⟩
+  | succ fuel ih =>
+    intro h m hp hc hm
+    cases m with
+    | leaf l => exact ⟨hp, hc, trivial⟩
+    | joined s =>
+      have := acLoop_closed (asCompleteMem fuel) ih s hm s.len 0 h hp hc
+      exact ⟨this.1, this.2, hm⟩
+    | ordered s =>
+      have := acLoop_closed (asCompleteMem fuel) ih s hm s.len 0 h hp hc
+      exact ⟨this.1, this.2, hm⟩
+    | compl m => exact ⟨hp, hc, hm⟩
+
+theorem closed_snoc {n : Nat} {h : Heap MLoc} (hc : Closed n h) {cells : List MLoc}
+    (hcells : ∀ c ∈ cells, RefsAbove n c) : Closed n (h ++ [cells]) := by
+  intro a ha x hx
+  by_cases h1 : a < h.length
+  · rw [get_append_left h1] at hx; exact hc a ha x hx
+  · by_cases h2 : a = h.length
+    · subst h2; rw [get_append_length] at hx; exact hcells x hx
+    · rw [get_of_le (by simp; omega)] at hx; cases hx
+
+mutual
+/-- a freshly built location lies in new arrays and refers only to new arrays -/
+theorem allocLoc_closed : ∀ (l : Loc) (h : Heap MLoc) (n : Nat), n ≤ h.length → Closed n h →
+    h <+: (allocLoc l h).2 ∧ Closed n (allocLoc l h).2 ∧ RefsAbove n (allocLoc l h).1
+  | .between _, h, n, _, hc => ⟨List.prefix_refl _, hc, trivial⟩
+  | .point _, h, n, _, hc => ⟨List.prefix_refl _, hc, trivial⟩
+  | .ranged .., h, n, _, hc => ⟨List.prefix_refl _, hc, trivial⟩
+  | .ambiguous .., h, n, _, hc => ⟨List.prefix_refl _, hc, trivial⟩
+  | .joined ls, h, n, hn, hc => by
+    have ih := allocList_closed ls h n hn hc
+    unfold allocLoc
+    exact ⟨prefix_snoc ih.1 _, closed_snoc ih.2.1 ih.2.2, Nat.le_trans hn ih.1.length_le⟩
+  | .ordered ls, h, n, hn, hc => by
+    have ih := allocList_closed ls h n hn hc
+    unfold allocLoc
+    exact ⟨prefix_snoc ih.1 _, closed_snoc ih.2.1 ih.2.2, Nat.le_trans hn ih.1.length_le⟩
+  | .compl l, h, n, hn, hc => by
+    have ih := allocLoc_closed l h n hn hc
+    unfold allocLoc
+    exact ih
+theorem allocList_closed : ∀ (ls : List Loc) (h : Heap MLoc) (n : Nat), n ≤ h.length → Closed n h →
+    h <+: (allocList ls h).2 ∧ Closed n (allocList ls h).2 ∧ ∀ c ∈ (allocList ls h).1, RefsAbove n c
+  | [], h, n, _, hc => ⟨List.prefix_refl _, hc, fun _ hx => by cases hx⟩
+  | l :: ls, h, n, hn, hc => by
+    have i1 := allocLoc_closed l h n hn hc
+    have i2 := allocList_closed ls (allocLoc l h).2 n (Nat.le_trans hn i1.1.length_le) i1.2.1
+    unfold allocList
+    refine ⟨i1.1.trans i2.1, i2.2.1, ?_⟩
+    intro c hcm
+    rcases List.mem_cons.1 hcm with e | e
+    · subst e
+      -- the head was built in the smaller heap; `RefsAbove` does not depend on the heap
+      exact i1.2.2
+    · exact i2.2.2 c e
+end
+
+theorem closed_self (h : Heap MLoc) : Closed h.length h := by
+  intro a ha x hx
+  rw [get_of_le ha] at hx
+  cases hx
+
+/-! ### `Props`: what the mutators can reach -/
+
+theorem mem_get_store {α : Type} {h : Heap α} {s : Slice} {i a : Nat} {c x : α}
+    (hx : x ∈ (store h s i c).get a) : x ∈ h.get a ∨ x = c := by
+  unfold store at hx
+  by_cases hab : s.arr = a
+  · subst hab
+    by_cases hl : s.arr < h.length
+    · rw [get_write_eq _ _ _ hl] at hx
+      rcases mem_overwrite hx with h1 | h1
+      · exact Or.inl h1
+      · simp at h1; exact Or.inr h1
+    · rw [get_of_le (by rw [length_write]; omega)] at hx
+      cases hx
+  · rw [get_write_ne _ _ _ hab] at hx
+    exact Or.inl hx
+
+theorem mem_of_load' {α : Type} {h : Heap α} {s : Slice} {i : Nat} {u : α} (hl : load h s i = some u) :
+    u ∈ h.get s.arr := List.mem_of_getElem? hl
+
+/-- the outer array of `p` was allocated after mark `nP`, and every row header in it points at an
+array allocated after mark `nR` (or owns no cell) -/
+def FreshProps (nR nP : Nat) (w : PWorld) (p : Slice) : Prop :=
+  nP ≤ p.arr ∧ ∀ row ∈ w.P.get p.arr, Fresh nR row
+
+theorem propsSet_frame (g : Grow) {R0 : Heap String} {P0 : Heap Slice} {w : PWorld} {p : Slice}
+    (hR : R0 <+: w.R) (hP : P0 <+: w.P) (hf : FreshProps R0.length P0.length w p) (key : String)
+    (values : List String) :
+    R0 <+: (propsSet g w p key values).2.R ∧ P0 <+: (propsSet g w p key values).2.P := by
+  have hR1 : R0 <+: write (mk w.R (values.length + 1) (values.length + 1)).2
+      (mk w.R (values.length + 1) (values.length + 1)).1.arr
+      (mk w.R (values.length + 1) (values.length + 1)).1.off (key :: values) :=
+    prefix_write (prefix_snoc hR _) hR.length_le _ _
+  unfold propsSet
+  split
+  · exact ⟨hR1, (frame_append g hP (Or.inl hf.1) _).1⟩
+  · exact ⟨hR1, prefix_write hP hf.1 _ _⟩
+
+theorem propsAdd_frame (g : Grow) {R0 : Heap String} {P0 : Heap Slice} {w : PWorld} {p : Slice}
+    (hR : R0 <+: w.R) (hP : P0 <+: w.P) (hf : FreshProps R0.length P0.length w p) (key : String)
+    (values : List String) :
+    R0 <+: (propsAdd g w p key values).2.R ∧ P0 <+: (propsAdd g w p key values).2.P := by
+  unfold propsAdd
+  split
+  · exact propsSet_frame g hR hP hf key values
+  · split
+    · rename_i row hrow
+      exact ⟨(frame_append g hR (hf.2 row (mem_of_load' hrow)) _).1, prefix_write hP hf.1 _ _⟩
+    · exact ⟨hR, hP⟩
+
+theorem propsDel_frame (g : Grow) {R0 : Heap String} {P0 : Heap Slice} {w : PWorld} {p : Slice}
+    (hR : R0 <+: w.R) (hP : P0 <+: w.P) (hf : FreshProps R0.length P0.length w p) (key : String) :
+    R0 <+: (propsDel g w p key).2.R ∧ P0 <+: (propsDel g w p key).2.P := by
+  unfold propsDel
+  split
+  · exact ⟨hR, hP⟩
+  · rename_i i _
+    exact ⟨hR, (frame_append g hP (Or.inl hf.1 : Fresh P0.length (p.upto i)) _).1⟩
+
+theorem cloneRows_fresh {R0 : Heap String} {P0 : Heap Slice} (ret : Slice) (hret : P0.length ≤ ret.arr)
+    (rows : List Slice) :
+    ∀ (i : Nat) (w : PWorld), R0 <+: w.R → P0 <+: w.P → (∀ row ∈ w.P.get ret.arr, Fresh R0.length row) →
+      R0 <+: (cloneRows w ret rows i).R ∧ P0 <+: (cloneRows w ret rows i).P ∧
+      ∀ row ∈ (cloneRows w ret rows i).P.get ret.arr, Fresh R0.length row := by
+  induction rows with
+  | nil => intro i w hR hP hc; exact ⟨hR, hP, hc⟩
+  | cons row rows ih =>
+    intro i w hR hP hc
+    unfold cloneRows
+    refine ih _ _ (frame_copy (prefix_snoc hR _) (dst := (mk w.R row.len row.len).1) hR.length_le _)
+      (prefix_write hP hret _ _) ?_
+    intro x hx
+    rcases mem_get_store hx with h1 | h1
+    · exact hc x h1
+    · subst h1; exact Or.inl hR.length_le
+
+theorem propsClone_fresh (w : PWorld) (p : Slice) :
+    w.R <+: (propsClone w p).2.R ∧ w.P <+: (propsClone w p).2.P ∧
+    FreshProps w.R.length w.P.length (propsClone w p).2 (propsClone w p).1 := by
+  have := cloneRows_fresh (R0 := w.R) (P0 := w.P) (mk w.P p.len p.len).1 (Nat.le_refl _) (read w.P p) 0
+    ⟨w.R, (mk w.P p.len p.len).2⟩ (List.prefix_refl _) (prefix_snoc (List.prefix_refl _) _)
+    (by
+      intro row hrow
+      have : (mk w.P p.len p.len).2.get (mk w.P p.len p.len).1.arr = List.replicate p.len default :=
+        get_append_length _ _
+      rw [this] at hrow
+      rw [List.eq_of_mem_replicate hrow]
+      exact Or.inr rfl)
+  exact ⟨this.1, this.2.1, Nat.le_refl _, this.2.2⟩
 
 end Gts.Mem
